@@ -190,6 +190,7 @@ TYPE_SEQS = [
     (['optional', '<', 'ndsize_t', '>'], 'opt_ndsize'),
     (['optional', '<', 'H5Group', '>'], 'opt_H5Group'),
     (['optional', '<', 'double', '>'], 'opt_double'),
+    (['optional', '<', 'unsigned', '>'], 'opt_unsigned'),
     (['optional', '<', 'string', '>'], 'opt_string'),
     (['vector', '<', 'double', '>', '::', 'iterator'], 'double_iter'),
     (['vector', '<', 'double', '>', '::', 'const_iterator'], 'double_iter'),
@@ -225,7 +226,7 @@ TYPE_SEQS = [
     (['string'], 'nstring'),
 ]
 
-OPT_TYPES = {'opt_ndsize': 'ndsize', 'opt_pair': 'pair', 'opt_double': 'double', 'opt_string': 'string', 'opt_H5Group': 'H5Group'}
+OPT_TYPES = {'opt_ndsize': 'ndsize', 'opt_pair': 'pair', 'opt_double': 'double', 'opt_unsigned': 'unsigned', 'opt_string': 'string', 'opt_H5Group': 'H5Group'}
 OPT_PAYLOAD_CLASS = {'opt_H5Group': 'H5Group'}
 VEC_TYPES = {'vec_double', 'vec_ndsize', 'vec_string', 'vec_opt_pair', 'vec_pair', 'vec_dpair',
              'vec_Dimension', 'vec_NDSize', 'vec_int', 'vec_DataView', 'vec_nstr', 'vec_DataArray', 'vec_Variant', 'vec_Source', 'vec_Section', 'vec_Column', 'vec_Block', 'vec_Tag', 'vec_MultiTag', 'vec_Property', 'vec_Feature'}
